@@ -208,9 +208,21 @@ fn evidence_for(prop: &str) -> Evidence {
         "C08" => ("a case is one API history (geometry, limit configuration, id offset, op list drawn from the whole public API incl. wrappers and embedded-io adapters) executed against the real library with every result compared to the executable model's acceptable set, and the handle tables / re-entrancy probe compared call by call; distinct = distinct (geometry, op-kind sequence) hashes among histories that opened/closed handles or ran the probe", 50),
         _ => ("a case is one API history (geometry x pre-populated tree x limit configuration x seeded op list, 20..400 calls) executed against the real library; after every call the result is compared with the executable model's acceptable set, the length/offset/eof observers of all open files are compared, and the property's medium monitor runs on the raw image; 'evaluations' counts API calls; distinct = distinct (geometry, op-kind sequence) hashes among histories that performed at least one successful data or namespace operation", 50),
     };
+    let specific = match prop {
+        "C01" => " Monitor of this check: every read (count and bytes), seek, length/offset/eof answer of every open file vs the byte-array model, through raw, wrapper and embedded-io flavours.",
+        "C02" => " Monitor of this check: after each flush/close/delete/mkdir the raw image is walked by the independent reader and (on closes) mounted by a fresh VolumeManager and compared with the model (observed.medium_comparisons, files_compared_on_medium, library_remounts); plus the U+00E5 first-character scenario.",
+        "C03" => " Monitor of this check: independent fsck of the raw image after every call that wrote (observed.fsck_after_call).",
+        "C04" => " Monitor of this check: every logged block write judged against the pre-write image (observed.block_writes_total).",
+        "C05" => " Monitor of this check: exact capacity prediction per write/create/mkdir from the independent free count, and allocated-vs-reachable comparison whenever no file is open (observed.leak_checks).",
+        "C07" => " Monitor of this check: result variant vs acceptable set for each (mode x target) cell (observed 'cell ...' counters), post-state, and no block write on refused calls.",
+        "C08" => " Monitor of this check: handle distinctness, stale-handle uses, limits per configuration, close_volume rules, has_open_handles, and the re-entrancy probe calling every Result-returning method from inside callbacks (observed.reentrant_probe_calls).",
+        "C16" => " Monitor of this check: byte comparison of all FAT copies after each writing call (observed.fat_copy_comparisons), FSInfo count/hint vs independent FAT scan after flush/close (observed.fsinfo_checks), twin runs with stale records (observed.stale_fsinfo_twin_runs).",
+        _ => "",
+    };
+    let rule = format!("{}{}", rule, specific);
     Evidence {
         level: "exploration",
-        rule: rule.into(),
+        rule,
         assumptions: vec![
             "independent reader/formatter (fatref/mkfs) and the executable model are correct (cross-validated in selftest; model validated by silence on the unchanged tree and by seeded mutants)".into(),
             "harness built with overflow-checks and debug-assertions; panics inside the library are caught per call".into(),
@@ -219,6 +231,15 @@ fn evidence_for(prop: &str) -> Evidence {
         exhaustive: None,
         extra: vec![],
         min_distinct: min,
+        min_counters: match prop {
+            "C02" => vec![("medium_comparisons", 200), ("library_remounts", 50), ("files_compared_on_medium", 500)],
+            "C03" => vec![("fsck_after_call", 1000)],
+            "C04" => vec![("block_writes_total", 5000)],
+            "C05" => vec![("leak_checks", 200), ("write=DiskFull", 20)],
+            "C08" => vec![("reentrant_probe_calls", 20), ("stale file handle=BadHandle", 50), ("open_file_in_dir=TooManyOpenFiles", 10), ("open_root_dir=TooManyOpenDirs", 10)],
+            "C16" => vec![("fat_copy_comparisons", 500), ("fsinfo_checks", 50), ("stale_fsinfo_twin_runs", 5)],
+            _ => vec![],
+        },
     }
 }
 
